@@ -84,6 +84,77 @@ theorem ows_noDigitHead {t rest : Bytes} (h : AllOWS t) (hr : rest = [] ∨ ∃ 
     simp only [AllOWS, List.all_cons, Bool.and_eq_true] at h
     have := ows_facts c; simp [h.1] at this; exact this.1.1.1.2
 
+/-! ### the list ends only at the end of the header (since squid commit 43aac5c every `xisspace` byte is skipped in front of an item) -/
+
+theorem space_is_leading : ∀ b : UInt8, (!isSpace b || isListLeading b) = true :=
+  forall_octet _ (by decide +kernel)
+
+theorem skipLeading_head {pos : Bytes} {c : UInt8} {r : Bytes} (h : skipLeading pos = c :: r) : isListLeading c = false := by
+  induction pos with
+  | nil => cases h
+  | cons x xs ih =>
+    simp only [skipLeading] at h
+    split at h
+    · exact ih h
+    · rename_i hx
+      injection h with h1 _; subst h1
+      simpa using hx
+
+theorem skipLeading_nil {pos : Bytes} (h : skipLeading pos = []) : ∀ c ∈ pos, isListLeading c = true := by
+  induction pos with
+  | nil => intro c hc; cases hc
+  | cons x xs ih =>
+    simp only [skipLeading] at h
+    split at h
+    · rename_i hx
+      intro c hc
+      rcases List.mem_cons.mp hc with rfl | hc
+      · exact hx
+      · exact ih h c hc
+    · cases h
+
+theorem dropWhile_snoc_ne_nil (l : Bytes) (c : UInt8) (hc : isSpace c = false) : (l ++ [c]).dropWhile isSpace ≠ [] := by
+  induction l with
+  | nil => simp [List.dropWhile_cons, hc]
+  | cons x l ih =>
+    simp only [List.cons_append, List.dropWhile_cons]
+    split
+    · exact ih
+    · simp
+
+theorem rtrimLen_pos (c : UInt8) (x : Bytes) (hc : isSpace c = false) : 0 < rtrimLen (c :: x) := by
+  unfold rtrimLen
+  rw [List.reverse_cons]
+  exact List.length_pos_iff.mpr (dropWhile_snoc_ne_nil _ c hc)
+
+theorem scanItem_pos (c : UInt8) (r : Bytes) (hc : c ≠ 44) : 0 < scanItem false (c :: r) := by
+  simp only [scanItem, hc, if_false]
+  split <;> omega
+
+/-- the first thing after the skipped commas/white space is always a non-empty item -/
+theorem first_item_nonempty {pos : Bytes} {c : UInt8} {r : Bytes} (h : skipLeading pos = c :: r) :
+    rtrimLen ((c :: r).take (scanItem false (c :: r))) ≠ 0 := by
+  have hl := skipLeading_head h
+  have hc44 : c ≠ 44 := by intro h44; subst h44; revert hl; decide
+  have hsp : isSpace c = false := by
+    have := space_is_leading c
+    cases hs : isSpace c with
+    | false => rfl
+    | true => simp [hs, hl] at this
+  obtain ⟨n, hn⟩ : ∃ n, scanItem false (c :: r) = n + 1 := ⟨scanItem false (c :: r) - 1, by have := scanItem_pos c r hc44; omega⟩
+  rw [hn, List.take_succ_cons]
+  have := rtrimLen_pos c (r.take n) hsp
+  omega
+
+/-- the item loop stops only when nothing but commas and list white space is left -/
+theorem itemsOf_nil {fuel : Nat} {pos : Bytes} (h : itemsOf (fuel + 1) pos = []) : ∀ c ∈ pos, isListLeading c = true := by
+  cases hs : skipLeading pos with
+  | nil => exact skipLeading_nil hs
+  | cons c r =>
+    simp only [itemsOf, hs] at h
+    have := first_item_nonempty hs
+    simp [this] at h
+
 /-! ### shape of the text of a valid spec -/
 
 theorem num_plain {ds : Bytes} (h : ds.all isDigit = true) : ∀ c ∈ ds, c ≠ 34 ∧ c ≠ 44 := by
